@@ -80,7 +80,9 @@ func (fs *Filesystem) MkdirAll(path string, perm ros.FileMode) error {
 }
 
 func (fs *Filesystem) MkdirTemp(dir, pattern string) (string, error) {
-	if dir != "" {
+	if dir != "" || fs.base != "" {
+		// With a base directory, an empty dir means the base directory itself,
+		// not the host's default temporary directory
 		var err error
 		dir, err = fs.resolvePath(dir, "mkdir")
 		if err != nil {
